@@ -412,7 +412,7 @@ fn report(ctx: &mut Ctx, r: &RouteRow, path: &str, api: &Option<String>, adm: &O
             let res = match class {
                 "pass" => "pass".to_string(),
                 "deny" => format!("deny {} {}", st, if same { "same" } else { "changed" }),
-                _ => format!("nomatch {}", st),
+                _ => format!("nomatch {} {}", st, if same { "same" } else { "changed" }),
             };
             ctx.case(&op, &res);
         }
